@@ -21,6 +21,8 @@ def c07_inherited_lookup_scope(case, what):
             or what.startswith("flat variables are not the elementary leaves")
             or what.startswith("declared type of")
             or what.startswith("flat equations are not the renamed equations")
+            or what.startswith("flat initial equations are not the renamed initial equations")
+            or what.startswith("declaration equations (and unconnected-flow equations) are not one per bound")
             or what.startswith("disagreement:flatten:"))
 
 
@@ -31,5 +33,7 @@ def c07_local_class_instantiated_in_place(case, what):
         return False
     return (what.startswith("flatten raised IndexError")
             or what.startswith("flatten raised ModificationTargetNotFound")
+            # a lost modification includes a lost binding: its declaration equation is then missing
+            or what.startswith("declaration equations (and unconnected-flow equations) are not one per bound")
             or what in ("disagreement:flatten:status", "disagreement:flatten:variables", "disagreement:flatten:equations",
                         "disagreement:flatten:initial-equations", "disagreement:flatten:declaration-equations"))
